@@ -147,6 +147,8 @@ def run_case(cs):
     root = os.path.join(d, world.root_name(rng))
     world.write_tree(root, tree)
     os.makedirs(root, exist_ok=True)
+    if rng.random() < 0.5:
+        world.set_mtimes(root, rng)  # 2001..2030: zones changed their offsets in that span (e.g. America/Caracas)
     dest = os.path.join(d, "dest")
     if shape == "normal" and rng.random() < 0.2:
         # a chain of nested histories (depth 3) so that -dr, -sf and references act across several levels
